@@ -1,0 +1,17 @@
+//go:build verif
+
+package proxy
+
+import "sort"
+
+// VerifC04Names returns the sorted names of all proxies registered in the manager.
+func (pm *Manager) VerifC04Names() []string {
+	pm.mu.RLock()
+	defer pm.mu.RUnlock()
+	out := make([]string, 0, len(pm.pxys))
+	for n := range pm.pxys {
+		out = append(out, n)
+	}
+	sort.Strings(out)
+	return out
+}
